@@ -813,10 +813,9 @@ def oracle(ctx, case, db, q, impl, known_tags):
 
 def canon_impl(i):
     """the observables compared with the model"""
-    out = {"pref0": i.get("pref0")}
     if not isinstance(i.get("vro"), list):
-        out["vro"] = {"err": "Crash"}
-        return out
+        return {"vro": {"err": "Crash"}}           # selectVRO raised
+    out = {"pref0": i.get("pref0")}
     out["vro"] = i["vro"]
     for k in ("walk", "resolve"):
         x = i[k]
@@ -825,11 +824,9 @@ def canon_impl(i):
 
 
 def canon_model(m):
-    out = {"pref0": m.get("pref0"), "vro": m.get("vro")}
-    if isinstance(m.get("vro"), list):
-        out["walk"] = m["walk"]
-        out["resolve"] = m["resolve"]
-    return out
+    if not isinstance(m.get("vro"), list):
+        return {"vro": m.get("vro")}
+    return {"pref0": m.get("pref0"), "vro": m["vro"], "walk": m["walk"], "resolve": m["resolve"]}
 
 
 def compare_groups(ctx, groups, label="random"):
@@ -856,9 +853,8 @@ def compare_groups(ctx, groups, label="random"):
             q = g["requests"][qi]
             case = {"db": g["db"], "request": q, "vrocfg": g.get("vrocfg")}
             o = q["opts"]
-            shape = "%s/d%d/%s%s%s%s%s" % (q["form"], q["depth"], "t%d" % len(o["tags"]), "T%d" % len(o["posttags"]),
-                                           "/keep" if o["keep"] else "", "/exact" if o["exact"] else "",
-                                           "/prev" if q["prev"] else "")
+            shape = "%s/d%d/%s%s%s" % (q["form"], q["depth"], "t" if o["tags"] else "-", "T" if o["posttags"] else "-",
+                                       "/prev" if q["prev"] else "")
             mc = canon_model(m)
             found_any = False
             for mode in ("db", "cache"):
@@ -921,6 +917,7 @@ ALT_VROS = [
     {"default": "commandLine version versionExpr warn current warn:2 stable latest"},
     {"default": "type:exact commandLine version versionExpr current", "beta": "beta commandLine version! versionExpr"},
     {"default": "path keep version current"},
+    {"default": "commandLine current stable"},      # no version entry: -T alone raises (unbound where)
 ]
 
 
@@ -952,7 +949,7 @@ def settings(ctx):
                 "with bracketed expression, depth 0 or 1, flavor list [Linux64, generic] or [generic, generic], 18% with "
                 "an earlier choice in alreadySetupProducts; options: every ordered choice of 0-3 -t and 0-3 -T tags out of "
                 "{stable, beta, latest, t, current}, --keep, --exact, --inexact; each request put to a fresh Eups with "
-                "readCache off and on; plus sequences of 2-4 requests on one instance and four alternative "
+                "readCache off and on; plus sequences of 2-4 requests on one instance and five alternative "
                 "hooks.config.Eups.VRO settings for selectVRO; a case is non-trivial when a product is found and the "
                 "request names a version or a tag option; distinct = distinct (database, request)")
     ctx.trusted_base = common.COMMON_TRUSTED + [
@@ -979,10 +976,12 @@ def run(ctx):
     settings(ctx)
     regen_config(ctx)
     ctx.check_theorems()
+    if ctx.tier == "thorough":
+        ctx.coqchk(["Eupsv.Props.C03"])
     rng = ctx.rng
     groups = [case_to_group(c) for c in corpus_groups()]
     ncorpus = len(groups)
-    ndb = ctx.size(300, 6000)
+    ndb = ctx.size(500, 8000)
     nreq = ctx.size(20, 30)
     for _ in range(ndb):
         groups.append(gen_group(rng, nreq))
@@ -997,7 +996,7 @@ def run(ctx):
         ctx.sample({"db": g["db"], "request": g["requests"][0]})
     step = 400
     for i in range(0, len(groups), step):
-        compare_groups(ctx, groups[i:i + step], label="corpus" if i + step <= ncorpus else "random")
+        compare_groups(ctx, groups[i:i + step], label="case")
 
 
 def replay(ctx, path):
